@@ -12,6 +12,7 @@ import QModel.Validate
 import QModel.Serialize
 import QModel.Eval
 import QModel.NFCheck
+import QModel.Emulated
 open Lean Num Nd Arith Cfg Graph Mat
 
 /-! JSON-lines driver: one request per line on stdin, one response per line on stdout. -/
@@ -542,6 +543,33 @@ def handle (j : Json) : Except String Json := do
       pure (pyToJson (fun (g : Validate.Groups) => Json.mkObj [("inputs", groupToJson g.inputs), ("outputs", groupToJson g.outputs),
           ("constants", groupToJson g.constants), ("intermediates", groupToJson g.intermediates)])
         (Validate.compare metric samples ins.toList outs.toList cs.toList))
+  | "emulated" =>
+      -- the EMULATED_SUBCHANNEL transformation function on its own (QModel/Emulated.lean)
+      let m ← getModel (← j.getObjVal? "model")
+      let pt ← getPTable j
+      let ej ← j.getObjVal? "env"
+      let env : Emulated.EmuEnv := {
+        fused := getOptNat ej "fused",
+        weightHasQuant := ← ej.getObjValAs? Bool "weightHasQuant",
+        qshape := ← getIntL ej "qshape",
+        scaleShape := ← getIntL ej "scaleShape",
+        zpAllZero := ← ej.getObjValAs? Bool "zpAllZero",
+        unitQ := ← ej.getObjValAs? Nat "unitQ",
+        axesTok := ← ej.getObjValAs? Nat "axesTok",
+        shape1Tok := ← ej.getObjValAs? Nat "shape1Tok",
+        shape2Tok := ← ej.getObjValAs? Nat "shape2Tok" }
+      let sgi ← j.getObjValAs? Nat "sg"
+      let ij ← j.getObjVal? "inp"
+      let inp : Perform.TIn := {
+        tensor := ← ij.getObjValAs? Int "tensor",
+        producer := ← ij.getObjValAs? Int "producer",
+        consumers := ← getIntL ij "consumers",
+        param := getOptNat ij "param" }
+      pure (match Emulated.apply pt env m sgi inp with
+        | .ok (m', info) => Json.mkObj [("ok", Json.mkObj [("model", modelToJson m'),
+            ("info", Json.mkObj [("opId", toJson info.opId), ("added", toJson info.added), ("outTensor", toJson info.outTensor)]),
+            ("wf", Json.bool (WF.modelOK m')), ("wf_in", Json.bool (WF.modelOK m))])]
+        | .error e => errJson e)
   | "ser_offsets" =>
       let d ← j.getObjValAs? Nat "dummyLen"
       let sizes ← getNatList j "sizes"
